@@ -141,6 +141,11 @@ def main(argv):
     out['wall_s'] = round(time.time() - t0, 2)
     sys.stdout.write('\n@@VSYM@@' + json.dumps(out) + '\n')
     sys.stdout.flush()
+    try:
+        from vsym import scratch
+        scratch.cleanup()
+    except Exception:  # noqa
+        pass
     os._exit(0)
 
 
